@@ -135,7 +135,9 @@ Arith(a, b, op) == [sp |-> a.sp, sh |-> a.sh,
                     c |-> [r \in DOMAIN a.c |-> [j \in DOMAIN a.c[r] |->
                              CASE op = "add" -> a.c[r][j] + b.c[r][j]
                                [] op = "sub" -> a.c[r][j] - b.c[r][j]
-                               [] op = "mul" -> a.c[r][j] * b.c[r][j]]]]
+                               [] op = "mul" -> a.c[r][j] * b.c[r][j]
+                               [] op = "div" -> a.c[r][j] \div b.c[r][j]                 \* (emitted only where every cell divides)
+                               [] op = "pow" -> IF b.c[r][j] = 0 THEN 1 ELSE IF b.c[r][j] = 1 THEN a.c[r][j] ELSE a.c[r][j] * a.c[r][j]]]]   \* exponents 0, 1, 2
 ArithValid(a, b) == a.sp = b.sp /\ a.sh = b.sh /\ Len(a.sh) = 1
 TEq(a, b) == a.sp = b.sp /\ a.sh = b.sh /\ a.c = b.c                       \* sensitive to variable order
 \* building from coordinates given in order `names`, and reading coordinates back
